@@ -1324,7 +1324,9 @@ var redirectURLs = []string{"https://example.com/a?b=c", "/clean/path", "/", "ht
 var formats = []struct {
 	f string
 	n int
-}{{"plain", 0}, {"", 0}, {"%s", 1}, {"hello %s!", 1}, {"%s-%s", 2}, {"100%% %s", 1}, {"%q", 1}}
+}{{"plain", 0}, {"", 0}, {"%s", 1}, {"hello %s!", 1}, {"%s-%s", 2}, {"100%% %s", 1}, {"%q", 1},
+	// formats that need formatting although no value is given: the bytes sent are fmt.Sprintf's, whatever the number of values
+	{"100%% done", 0}, {"%%", 0}, {"missing %s", 0}, {"%d items", 0}, {"%!", 0}, {"extra", 1}}
 
 func genHelper(t *rapid.T) *HelperCase {
 	c := &HelperCase{
